@@ -171,6 +171,10 @@ impl<K, V, S> IndexMap<K, V, S> {
             }
             r += 1;
         }
+        self.compact();
+    }
+    /// stable compaction of the `Some` entries to the front (loop-constant indices only)
+    fn compact(&mut self) {
         let mut j = 0;
         let mut kept = 0;
         while j < CAP {
@@ -192,6 +196,23 @@ impl<K, V, S> IndexMap<K, V, S> {
             j += 1;
         }
         self.len = kept;
+    }
+    /// `drain(range)`: removes the entries at the positions of `range`, keeping the order of the rest; yields the removed entries in order
+    pub fn drain<R: std::ops::RangeBounds<usize>>(&mut self, range: R) -> impl Iterator<Item = (K, V)> {
+        use std::ops::Bound::*;
+        let a = match range.start_bound() { Included(&x) => x, Excluded(&x) => x + 1, Unbounded => 0 };
+        let b = match range.end_bound() { Included(&x) => x + 1, Excluded(&x) => x, Unbounded => self.len };
+        assert!(a <= b && b <= self.len, "drain range out of bounds");
+        let mut out: [Option<(K, V)>; CAP] = std::array::from_fn(|_| None);
+        let mut j = 0;
+        while j < CAP {
+            if j >= a && j < b {
+                out[j] = self.entries[j].take();
+            }
+            j += 1;
+        }
+        self.compact();
+        out.into_iter().flatten()
     }
     pub fn sort_unstable_by<F: FnMut(&K, &V, &K, &V) -> std::cmp::Ordering>(&mut self, mut f: F) {
         let n = self.len;
